@@ -157,3 +157,44 @@ def selftest():
     assert sum(1 for _ in dags(4)) == 64
     assert sum(1 for _ in digraphs(3)) == 64
     return True
+
+
+def typed_dag_desc(n, edges, kinds, outs, inst="u", name="top"):
+    """Desc for a DAG whose node i has kind kinds[i]:
+    'input' | '0' | '1' | 'x' | a gate type | 'bbout' | 'bbin'.
+    Non-pin nodes are called n<i>; pins are <inst>.p<i> of one blackbox 'bbx'."""
+    nm = {i: (f"{inst}.p{i}" if k in ("bbout", "bbin") else f"n{i}") for i, k in enumerate(kinds)}
+    nodes = []
+    conn = {}
+    ins, outs_p = [], []
+    for i, k in enumerate(kinds):
+        if k == "bbout":
+            outs_p.append(f"p{i}")
+            for u, v in edges:
+                if u == i:
+                    conn[f"p{i}"] = nm[v]
+        elif k == "bbin":
+            ins.append(f"p{i}")
+            for u, v in edges:
+                if v == i:
+                    conn[f"p{i}"] = nm[u]
+        else:
+            fi = [nm[u] for u, v in edges if v == i and kinds[u] != "bbout"]
+            nodes.append([nm[i], k, fi, i in outs])
+    d = {"name": name, "nodes": nodes}
+    if ins or outs_p:
+        d["bbs"] = [[inst, "bbx", ins, outs_p, conn]]
+    return d, nm
+
+
+def degrees(n, edges):
+    indeg = [0] * n
+    outdeg = [0] * n
+    succ = [[] for _ in range(n)]
+    pred = [[] for _ in range(n)]
+    for u, v in edges:
+        indeg[v] += 1
+        outdeg[u] += 1
+        succ[u].append(v)
+        pred[v].append(u)
+    return indeg, outdeg, succ, pred
